@@ -10,3 +10,5 @@ static inline void ghost_havoc(void) { g_k = nondet_int(); g_j = nondet_int(); g
 #define COVER(c, name) ((void)0)
 #define COVER_END ((void)0)
 #endif
+/* list argument of the operation under test, recorded for replay */
+int ovm_list[16]; int ovm_list_n;
